@@ -397,10 +397,7 @@ func (sc *Scope) binary(e *SExpr) Term {
 		case "-":
 			return subT(a, b)
 		case "*":
-			if a.K != nil && b.K != nil {
-				return IntLit(new(big.Int).Mul(a.K, b.K), a.Sort)
-			}
-			return App(a.Sort, "*", a, b)
+			return sc.ex.vc.mulT(a, b)
 		case "/":
 			if a.Sort.Kind == KReal {
 				return App(SReal, "/", a, b)
@@ -569,6 +566,9 @@ func (sc *Scope) call(e *SExpr) Term {
 			return FieldOf(t, 0)
 		}
 		sc.errorf(e, "deref of %s", t.Sort)
+	case "mul": // mul(a, b): the mathematical product, also where `*` is opaque (opaquemul)
+		a, b := sc.eval(e.Args[0]), sc.eval(e.Args[1])
+		return App(a.Sort, "*", a, b)
 	case "hfloor":
 		// floor(x / 2) in either mode
 		t := sc.eval(e.Args[0])
